@@ -801,7 +801,12 @@ class CompositeEnvelope:
                 ce_container = CompositeEnvelope._containers[ce.uid]
             elif CompositeEnvelope._containers[ce.uid] is not ce_container:
                 ce_container.append_states(CompositeEnvelope._containers[ce.uid])
-            ce.uid = self.uid
+            # Every handle of the merged container has to follow, not only the one given
+            merged_uid = ce.uid
+            for handles in CompositeEnvelope._instances.values():
+                for handle in handles:
+                    if handle.uid == merged_uid:
+                        handle.uid = self.uid
         if ce_container is None:
             ce_container = CompositeEnvelopeContainer(self.uid)
         for e in envelopes:
